@@ -6,7 +6,11 @@ package main
 
 import (
 	"fmt"
+	"math"
+	"strconv"
+
 	"go/types"
+	"golang.org/x/tools/go/ssa"
 	"math/big"
 	"strings"
 )
@@ -121,11 +125,38 @@ func init() {
 	intrinsics["math.Float32frombits"] = ident
 	intrinsics["internal/abi.NoEscape"] = ident
 	intrinsics["internal/abi.Escape"] = ident
+	// strconv float formatting/parsing: evaluated natively for concrete arguments (the engine and the code under test
+	// share the same Go release); symbolic floats/strings are outside the claim.
 	intrinsics["strconv.ParseFloat"] = func(e *Engine, f *frame, a []Value) Value {
-		panic(unsupported("strconv.ParseFloat (outside the claim)"))
+		s := a[0].(*StrV)
+		for _, c := range s.b {
+			if !c.IsConst() {
+				panic(unsupported("strconv.ParseFloat of a symbolic string (outside the claim)"))
+			}
+		}
+		bits := int(e.term(a[1]).ConstS())
+		v, err := strconv.ParseFloat(e.concStr(s), bits)
+		var ev Value = nilIface
+		if err != nil {
+			ne := err.(*strconv.NumError)
+			inner := "ErrSyntax"
+			if ne.Err == strconv.ErrRange {
+				inner = "ErrRange"
+			}
+			// build a real *strconv.NumError value inside the interpreter: Func, Num, Err (the package's own sentinel)
+			ev = e.newNumError(ne.Func, ne.Num, inner)
+		}
+		return Tuple{e.b.BVu(math.Float64bits(v), 64), ev}
 	}
 	intrinsics["strconv.FormatFloat"] = func(e *Engine, f *frame, a []Value) Value {
-		panic(unsupported("strconv.FormatFloat (outside the claim)"))
+		v := e.term(a[0])
+		if !v.IsConst() {
+			panic(unsupported("strconv.FormatFloat of a symbolic float (outside the claim)"))
+		}
+		fmtc := byte(e.term(a[1]).ConstU())
+		prec := int(e.term(a[2]).ConstS())
+		bits := int(e.term(a[3]).ConstS())
+		return e.strConst(strconv.FormatFloat(math.Float64frombits(v.ConstU()), fmtc, prec, bits))
 	}
 	nop := func(e *Engine, f *frame, a []Value) Value { return nil }
 	intrinsics["(*sync.Mutex).Lock"] = nop
@@ -600,4 +631,24 @@ func initBig() {
 		}
 		return Tuple{e.setBig(a[0], r), e.b.tt}
 	})
+}
+
+// newNumError builds a *strconv.NumError{Func, Num, Err: strconv.<sentinel>} inside the interpreter.
+func (e *Engine) newNumError(fn, num, sentinel string) Value {
+	var pkg *ssa.Package
+	for _, p := range e.prog.AllPackages() {
+		if p.Pkg.Path() == "strconv" {
+			pkg = p
+		}
+	}
+	if pkg == nil {
+		panic(unsupported("strconv not loaded"))
+	}
+	nt := pkg.Pkg.Scope().Lookup("NumError").Type()
+	s := e.newSlot(nt)
+	e.store(s.kids[0], e.strConst(fn))
+	e.store(s.kids[1], e.strConst(num))
+	g := pkg.Members[sentinel].(*ssa.Global)
+	e.store(s.kids[2], e.load(e.global(g)))
+	return &Iface{t: types.NewPointer(nt), v: &Ptr{s}}
 }
